@@ -191,7 +191,8 @@ namespace foonathan
                         auto array_size = (count * node_size + pool.node_size() - 1)
                                           / pool.node_size() * pool.node_size();
                         detail::check_allocation_size<bad_array_size>(
-                            array_size, [&] { return next_capacity() - pool.alignment() + 1; },
+                            array_size,
+                            [&] { return next_capacity() - pool.alignment() + 1 - fence_overhead(); },
                             info());
 
                         block = reserve_memory(pool, array_size);
@@ -333,9 +334,20 @@ namespace foonathan
                 return {FOONATHAN_MEMORY_LOG_PREFIX "::memory_pool_collection", this};
             }
 
+            // what the debug fences cost a reservation placed at the start of a block
+            static constexpr std::size_t fence_overhead() noexcept
+            {
+                return detail::debug_fence_size ?
+                           2 * detail::debug_fence_size
+                               + (detail::max_alignment
+                                  - detail::debug_fence_size % detail::max_alignment)
+                                     % detail::max_alignment :
+                           0u;
+            }
+
             std::size_t def_capacity() const noexcept
             {
-                return arena_.current_block().size / pools_.size();
+                return (arena_.current_block().size - fence_overhead()) / pools_.size();
             }
 
             detail::fixed_memory_stack allocate_block()
